@@ -119,7 +119,7 @@ func history(c *harness.Ctx, id string, r *rand.Rand, forced bool) {
 		for k := 0; k < nRefresh && stuck.Load() == nil; k++ {
 			var o relaycommon.Outcome
 			in := regIn{Op: "refresh", ID: -1}
-			kind := []string{"valid", "valid", "valid", "valid", "error", "malformed", "empty", "nil", "unresolvable", "json-null", "json-array", "json-string", "json-empty-object", "json-version-only"}[rr.Intn(14)]
+			kind := []string{"valid", "valid", "valid", "valid", "error", "not-found", "malformed", "empty", "nil", "unresolvable", "json-null", "json-array", "json-string", "json-empty-object", "json-version-only"}[rr.Intn(15)]
 			if forced {
 				kind = []string{"unresolvable", "valid", "error", "valid"}[k]
 			}
@@ -283,6 +283,92 @@ func history(c *harness.Ctx, id string, r *rand.Rand, forced bool) {
 	}
 }
 
+// slowSource: the configuration source takes its time (or hangs) over a refresh. Lookups, auctions and registration
+// rounds arriving meanwhile are answered from the last configuration obtained.
+func slowSource(c *harness.Ctx, id string, r *rand.Rand) {
+	ctx := context.Background()
+	var accts []harness.Acct
+	for i := 0; i < 3; i++ {
+		accts = append(accts, harness.NewAcct(harness.KindPlain, "W", fmt.Sprintf("s%d", i), 700+i, phase0.ValidatorIndex(9000+i), nil))
+	}
+	env, err := relaycommon.NewEnv(accts, 1, relaycommon.Outcome{Kind: "error"}, nil)
+	if err != nil {
+		c.Inconclusive("cannot build block relay service: " + err.Error())
+		return
+	}
+	k := 1 + r.Intn(200)
+	doc := func(k int) string {
+		return (&refcfg.Doc2{Opts: refcfg.Opts{FR: &k}, Relays: map[string]*refcfg.Relay{env.RelayAddr(0): {}, env.RelayAddr(1): {}}}).JSON()
+	}
+	env.Config.Set(relaycommon.Outcome{Kind: "valid", Doc: doc(k)})
+	env.Refresh()
+	gate := make(chan struct{})
+	var arrived atomic.Int64
+	env.Config.SetHold(func(ctx context.Context) {
+		arrived.Add(1)
+		select {
+		case <-gate:
+		case <-ctx.Done():
+		}
+	})
+	next := []relaycommon.Outcome{{Kind: "valid", Doc: doc(k + 1)}, {Kind: "error"}, {Kind: "not-found"}}[r.Intn(3)]
+	env.Config.Set(next)
+	refreshDone := make(chan struct{})
+	go func() { env.Refresh(); close(refreshDone) }()
+	for i := 0; i < 5000 && arrived.Load() == 0; i++ {
+		time.Sleep(time.Millisecond)
+	}
+	if arrived.Load() == 0 {
+		c.Inconclusive(id + ": the refresh never reached the configuration source")
+		close(gate)
+		return
+	}
+	// the refresh is now waiting for its source
+	detail := map[string]any{"refresh_in_flight_outcome": next.Kind}
+	calls := []struct {
+		name string
+		f    func() int
+	}{
+		{"proposer-settings lookup", func() int {
+			pc, err := env.Svc.ProposerConfig(ctx, accts[0], accts[0].Pub48())
+			if err != nil || pc == nil {
+				return -1
+			}
+			return frID(pc.FeeRecipient)
+		}},
+		{"auction", func() int { _, _ = env.Svc.AuctionBlock(ctx, 3200, phase0.Hash32{1}, accts[1].Pub48()); return k }},
+		{"registration round", func() int { env.Register(); return k }},
+	}
+	for _, cl := range calls {
+		got := 0
+		if !timed(func() { got = cl.f() }) {
+			c.Violate("call-never-returns:while-config-source-is-slow", fmt.Sprintf("a %s made while a configuration refresh was waiting for its source did not return within %v", cl.name, watchdog), id, detail)
+			close(gate)
+			return
+		}
+		if got != k {
+			c.Violate("lookup-not-from-last-configuration:while-config-source-is-slow", fmt.Sprintf("a %s made while a refresh was waiting for its source answered with configuration %d; the last one obtained is %d", cl.name, got, k), id, detail)
+		}
+	}
+	close(gate)
+	select {
+	case <-refreshDone:
+	case <-time.After(watchdog):
+		c.Violate("call-never-returns:refresh-after-slow-source", "the refresh did not return after its source had answered", id, detail)
+		return
+	}
+	env.Config.SetHold(nil)
+	want := k
+	if next.Kind == "valid" {
+		want = k + 1
+	}
+	if pc, err := env.Svc.ProposerConfig(ctx, accts[0], accts[0].Pub48()); err != nil || pc == nil || frID(pc.FeeRecipient) != want {
+		c.Violate("lookup-not-from-last-configuration:after-slow-source", fmt.Sprintf("after a refresh ending in %q the lookup does not answer with configuration %d", next.Kind, want), id, detail)
+	}
+	c.Count("slow_source_cases", 1)
+	c.Distinct("slow-source|" + next.Kind)
+}
+
 func run(c *harness.Ctx) {
 	harness.InitBLS()
 	for i := 0; i < 4; i++ {
@@ -304,13 +390,18 @@ func run(c *harness.Ctx) {
 		})
 	}
 	wg.Wait()
+	ns := c.N(24, 600)
+	for i := 0; i < ns; i++ {
+		id := fmt.Sprintf("slow%d", i)
+		c.Case(id, func() { slowSource(c, id, c.Rand("slow", i)) })
+	}
 }
 
 func main() {
 	harness.Main(&harness.Spec{
 		Property:     "C12",
 		Level:        "fault_enumeration",
-		Rule:         "histories with one refreshing goroutine stepping through fetch outcomes {valid (unique id in the fee recipient), error, malformed, empty, nil, JSON null / array / string / empty object / unknown version, valid-but-unresolvable-for-some-validators} while 4-8 goroutines issue proposer-setting lookups, auctions (for resolvable and unresolvable validators) and registration rounds; every tenth history is the forced sequence [unresolvable document, auction for an unresolvable validator, valid document, ...]; porcupine check of the refresh/lookup history against a register, per-call watchdog, lock probe and final refresh at quiescence. distinct = (forced, set of outcome/operation classes seen, readers); non-trivial = >=4 classes",
+		Rule:         "histories with one refreshing goroutine stepping through fetch outcomes {valid (unique id in the fee recipient), error, not found, malformed, empty, nil, JSON null / array / string / empty object / unknown version, valid-but-unresolvable-for-some-validators} while 4-8 goroutines issue proposer-setting lookups, auctions (for resolvable and unresolvable validators) and registration rounds; every tenth history is the forced sequence [unresolvable document, auction for an unresolvable validator, valid document, ...]; porcupine check of the refresh/lookup history against a register, per-call watchdog, lock probe and final refresh at quiescence; plus refreshes held at a slow source while a lookup, an auction and a registration round are made (they must return, from the last configuration obtained). distinct = (forced, set of outcome/operation classes seen, readers); non-trivial = >=4 classes",
 		Batches:      func(string) int { return 8 },
 		Parallel:     8,
 		Run:          run,
